@@ -158,3 +158,89 @@ contract(F, 'AppClock.sched', props=('C05', 'C10'),
          **dict(common, hooks={'getattr': h_mode_app},
                 fields=dict(FIELDS, AppClock={'_sched_lock': 'obj', '_scheduler': 'obj', '_tick_cond': 'obj'}),
                 class_modules=dict(CM, AppClock=F)))
+
+
+# ---- the non-real-time scheduler loop and the task wrapper ----------------------------------------------
+# ClockScheduler.run: every pass pops ONE entry and wakes exactly that task with exactly the popped
+# time; it stops only when the queue is empty.  With the TaskQueue contract (C09: entries come out in
+# stable priority order) and ClockTask._wakeup (re-schedules at popped time + delta through the clock's
+# map) this gives: the logical time handed to tasks never decreases as long as deltas are not negative.
+# ClockTask.__init__: the new wrapper is queued once, at clock.beats2secs(beats), as itself.
+from vf.pyvc.spec import Loop as _Loop2
+
+
+def nrt_getattr(eng, obj, name, st, node):
+    if obj.k == 'obj' and obj.oid == 'self.queue' and name in ('empty', 'pop'):
+        def q(eng, args, kwargs, st, node, _n=name):
+            if _n == 'empty':
+                return [(st, vbool(eng.fresh('queue.empty', z3.BoolSort())))]
+            t = vreal(eng.fresh('popped.time', z3.RealSort()))
+            k = V('ref', cls='ClockTask', oid='popped!%d' % next(eng.counter))
+            st.trace.append(('pop', t, k))
+            return [(st, vtuple([t, k]))]
+        return [(st, V('func', py=('spec', q)))]
+    if obj.k == 'ref' and obj.cls == 'ClockTask' and str(obj.oid).startswith('popped') and name == '_wakeup':
+        def wk(eng, args, kwargs, st, node, _o=obj):
+            st.trace.append(('wakeup', _o, tuple(args)))
+            return [(st, NONE)]
+        return [(st, V('func', py=('spec', wk)))]
+    if obj.k == 'obj' and obj.oid in ('scheduler',) and name == 'add':
+        def add(eng, args, kwargs, st, node):
+            st.trace.append(('sched-add', tuple(args)))
+            return [(st, NONE)]
+        return [(st, V('func', py=('spec', add)))]
+    if obj.k == 'obj' and obj.oid == 'clock' and name == 'beats2secs':
+        def b2s(eng, args, kwargs, st, node):
+            r = vreal(eng.fresh('secs', z3.RealSort()))
+            st.trace.append(('beats2secs', tuple(args), r))
+            return [(st, r)]
+        return [(st, V('func', py=('spec', b2s)))]
+    return None
+
+
+def _since(trace):
+    idx = -1
+    for i, e in enumerate(trace):
+        if e[0] == 'loop-head':
+            idx = i
+    return trace[idx + 1:] if idx >= 0 else None
+
+
+def run_pass(c, L):
+    ev = _since(c.trace)
+    if not ev:
+        return z3.BoolVal(True)
+    ev = [e for e in ev if e[0] in ('pop', 'wakeup')]
+    if [e[0] for e in ev] != ['pop', 'wakeup']:
+        return z3.BoolVal(False)
+    pop, wk = ev
+    ok = wk[1] is pop[2] and len(wk[2]) == 1 and wk[2][0] is pop[1]      # THAT task, with THAT time
+    return z3.BoolVal(bool(ok))
+
+
+contract(F, 'ClockScheduler.run', props=('C05', 'C10'), params={'self': 'self'},
+         ensures=[('nothing-outside-the-passes', lambda c: z3.BoolVal(True))],
+         loops={0: _Loop2(inv=run_pass, kinds={'time': 'real', 'clock_task': (lambda eng, n: V('obj', oid='havoc'))})},
+         modifies=[], fields={'ClockScheduler': {'queue': 'obj'}, 'ClockTask': {}},
+         hooks={'getattr': nrt_getattr}, class_modules={'ClockScheduler': F, 'ClockTask': F}, native=False)
+
+
+def ct_init_post(c):
+    ev = [e for e in c.trace if e[0] in ('sched-add', 'beats2secs')]
+    if [e[0] for e in ev] != ['beats2secs', 'sched-add']:
+        return z3.BoolVal(False)
+    b2s, add = ev
+    me = c.post.self
+    ok = (len(b2s[1]) == 1 and b2s[1][0] is c._params['beats']
+          and len(add[1]) == 2 and add[1][0] is b2s[2] and add[1][1].k == 'ref' and add[1][1].oid == 'self'
+          and me.v('clock') is c._params['clock'] and me.v('task') is c._params['task']
+          and me.v('scheduler') is c._params['scheduler'])
+    return z3.BoolVal(bool(ok))
+
+
+contract(F, 'ClockTask.__init__', props=('C05', 'C10'),
+         params={'self': 'self', 'beats': 'num', 'clock': 'obj', 'task': 'obj', 'scheduler': 'obj'},
+         ensures=[('queued-once-as-itself-at-the-clocks-seconds-for-these-beats', ct_init_post)],
+         modifies=[('self', 'clock'), ('self', 'task'), ('self', 'scheduler')],
+         fields={'ClockTask': {'clock': 'obj', 'task': 'obj', 'scheduler': 'obj'}},
+         hooks={'getattr': nrt_getattr}, class_modules={'ClockTask': F}, native=False)
